@@ -20,7 +20,7 @@ from sdc11073.pysoap.soapclient import HTTPReturnCodeError
 
 EPOCH = 1000000  # time.time() = monotonic() + EPOCH
 
-OUTCOMES = ('ok', 'http_error', 'refused', 'timeout')
+OUTCOMES = ('ok', 'http_error', 'refused', 'timeout', 'unresolvable', 'tls_error', 'unreadable_reply')
 
 
 class FakeClock:
@@ -62,6 +62,14 @@ def _raise_outcome(pool):
         raise ConnectionRefusedError('stub')
     if outcome == 'timeout':
         raise TimeoutError('stub')
+    if outcome == 'unresolvable':
+        import socket
+        raise socket.gaierror(-3, 'Temporary failure in name resolution')
+    if outcome == 'tls_error':
+        import ssl
+        raise ssl.SSLError(1, 'stub: handshake failure')
+    if outcome == 'unreadable_reply':
+        raise ValueError('stub: the answer of the subscriber cannot be read')
 
 
 class FakeSoapClient:
